@@ -271,9 +271,45 @@ class Pointwise(Interp):
             return _PVMethod(base, attr)
         return super().get_attr(base, attr, node)
 
+    def _single_label(self) -> bool:
+        """this path has decided that the reference label collection holds exactly one label"""
+        one = Poly.const(1)
+        for _n, v, d in self.root.taken:
+            pv = getattr(v, "pv", None)
+            if pv and pv[0] in ("==", "!=") and any(str(x).startswith("nlab") for p_ in pv[1:] for x in p_.variables()):
+                # len(labels) == 1  <=>  1 + nlab == 1
+                lhs, rhs = pv[1], pv[2]
+                if ((lhs - rhs) - next((Poly.var(x) for x in (lhs - rhs).variables()), Poly())).is_zero() or ((rhs - lhs) - next((Poly.var(x) for x in (rhs - lhs).variables()), Poly())).is_zero():
+                    if (pv[0] == "==") == bool(d):
+                        return True
+        return False
+
+    def call_func(self, f, args, kwargs, node, self_obj=None):
+        if self.prog.is_anchor(f.qual, "utils.numpy_utils:_get_bbox_nd") and args and isinstance(args[0], (Mask, Unknown)):
+            # the bounding box of a mask (R10.2: it holds every voxel of the mask): the generic voxel is inside
+            # if it is in the mask, otherwise it may or may not be
+            t = self._mask_value(args[0], node)
+            if t is not None:
+                return BoxV(True if t else None)
+        return super().call_func(f, args, kwargs, node, self_obj=self_obj)
+
+    def _in_box(self, box, node) -> bool:
+        if box.inside is None:
+            box.inside = self.decide(node, self.root.__dict__.setdefault("_box_unknowns", {}).setdefault(id(box), Unknown("voxel-in-box")))
+        return box.inside
+
     def subscript_hook(self, base, idx, node):
         if isinstance(base, EmptyArr):
             return base
+        if isinstance(idx, BoxV) and (isinstance(base, (Mask, Unknown)) or (isinstance(base, PV) and base.kind == "arr" and not base.uniq)):
+            # restriction to a box: the generic voxel stays (with its value / its mask value) or is cut away
+            return base if self._in_box(idx, node) else EmptyArr()
+        if isinstance(base, LabelSeq) and isinstance(idx, int) and not isinstance(idx, bool) and idx in (0, -1) and self._single_label():
+            # the only reference label: it is the label of every reference voxel that has one
+            ref = next((v for v in self.root.env.values() if isinstance(v, PV) and v.kind == "arr" and v.origin == "ref"), None)
+            if ref is not None:
+                pos, _ = decide_cmp(">=", ref.poly, Poly.const(1), True)
+                return PV(ref.poly, ref.cont, "nps", "ref") if pos is True else base.max_value
         if isinstance(base, PV) and base.kind == "arr" and not base.uniq and isinstance(idx, (Mask, Unknown)):
             # boolean selection of voxels: the generic voxel is among them or not
             t = self._mask_value(idx, node)
@@ -320,6 +356,8 @@ class Pointwise(Interp):
         return self.decide(node, v)
 
     def attr_hook(self, base, attr, node):
+        if attr == "any" and (isinstance(base, Mask) or (isinstance(base, Unknown) and getattr(base, "pv", None) is not None)):
+            return _MaskAny(base)
         if isinstance(base, PV):
             if attr == "dtype":
                 return Sym("dtypeof:" + base.cont)
@@ -327,6 +365,10 @@ class Pointwise(Interp):
         return Unknown(f"attr {attr}")
 
     def apply(self, fv, args, kwargs, node):
+        if isinstance(fv, _MaskAny) and not args and not kwargs:
+            # is any voxel of the array in the mask: yes if the generic voxel is, else it depends on the others
+            t = self._mask_value(fv.mask, node)
+            return True if t else self.root.__dict__.setdefault("_any_elsewhere", Unknown("any-elsewhere"))
         if isinstance(fv, _PVMethod):
             return self.pv_method(fv.pv, fv.name, args, kwargs, node)
         return super().apply(fv, args, kwargs, node)
@@ -462,6 +504,18 @@ _UFUNC_OPS = {
     "numpy.remainder": ast.Mod, "numpy.mod": ast.Mod, "numpy.floor_divide": ast.FloorDiv, "numpy.add": ast.Add,
     "numpy.multiply": ast.Mult, "numpy.subtract": ast.Sub,
 }
+
+
+class BoxV:
+    """A bounding box computed from a mask: `inside` tells whether the generic voxel lies in it (None: open)."""
+
+    def __init__(self, inside):
+        self.inside = inside
+
+
+class _MaskAny:
+    def __init__(self, mask):
+        self.mask = mask
 
 
 @dataclass
